@@ -109,6 +109,45 @@ theorem pyRound_bound (q : Rat) (p : Nat) :
     rw [this]
     exact (div_le_div_iff_of_pos_right hP).mpr hb.2
 
+
+/-- `chem_mass` succeeds on a composition of known elements and is then the linear form -/
+theorem chemMass_ok (mono : Bool) (c : Comp) (h : c.all (fun p => (elemMass mono p.1).isSome) = true) :
+    chemMass mono c none = .ok (chemMassL (fun e => (elemMass mono e).getD 0) c) := by
+  unfold chemMass chemMassL
+  have key : ∀ (l : Comp) (a : Rat), l.all (fun p => (elemMass mono p.1).isSome) = true →
+      l.foldlM (chemStep mono) a
+      = Except.ok (l.foldl (fun acc p => acc + (elemMass mono p.1).getD 0 * p.2) a) := by
+    intro l
+    induction l with
+    | nil => intro a _; rfl
+    | cons p l ih =>
+      intro a hl
+      simp only [List.all_cons, Bool.and_eq_true] at hl
+      obtain ⟨hp, hl⟩ := hl
+      obtain ⟨m, hm⟩ := Option.isSome_iff_exists.mp hp
+      rw [List.foldlM_cons, List.foldl_cons]
+      have hs : chemStep mono a p = Except.ok (a + (elemMass mono p.1).getD 0 * p.2) := by
+        unfold chemStep; rw [hm]; rfl
+      rw [hs]
+      exact ih _ hl
+  rw [key c 0 h]
+  rfl
+
+theorem isotopicAveragineMass_pos : 0 < isotopicAveragineMass := by decide +kernel
+
+/-- averagine scaling is mass-exact over ℚ -/
+theorem chemMassL_averagine (m : Rat) :
+    chemMassL (fun e => (elemMass true e).getD 0)
+      (Gen.averagine.map (fun p => (p.1, p.2 * m / isotopicAveragineMass))) = m := by
+  have hM := isotopicAveragineMass_pos
+  have hf : (fun p : Elem × Rat => (p.1, p.2 * m / isotopicAveragineMass))
+      = (fun p : Elem × Rat => (p.1, p.2 * (m / isotopicAveragineMass))) := by
+    funext p; rw [mul_div_assoc]
+  rw [hf, chemMassL_map_mul]
+  have : chemMassL (fun e => (elemMass true e).getD 0) Gen.averagine = isotopicAveragineMass := rfl
+  rw [this]
+  field_simp
+
 end Chem
 
 namespace Spec
